@@ -4,6 +4,7 @@ Synchronous Policy class - unified resilience container.
 Uses shared helpers from execution.py for circuit breaker integration.
 """
 
+import asyncio
 from collections.abc import Callable
 from typing import Any
 
@@ -101,6 +102,10 @@ class Policy:
             record_success(ctx)
             return result
 
+        except asyncio.CancelledError:
+            # Also covers CancelledError subclasses that derive from Exception.
+            record_cancel(ctx)
+            raise
         except (KeyboardInterrupt, SystemExit):
             record_cancel(ctx)
             raise
@@ -323,6 +328,10 @@ class Policy:
                     )
                 )
             return build_aborted_outcome(ctx, attempts=1)
+
+        except asyncio.CancelledError:
+            record_cancel(ctx)
+            raise
 
         except (KeyboardInterrupt, SystemExit):
             record_cancel(ctx)
